@@ -596,7 +596,7 @@ func compareModel(mask int, cs *mcCase, r *mon.Result, m *ref.Result) []diff {
 		ds = append(ds, diff{"result-changed-later", "the returned value stays what it was", r.Unstable})
 	}
 	if mask&CmpInput != 0 && r.InputChanged {
-		ds = append(ds, diff{"input", "input buffer unchanged", "Parse wrote to the caller's buffer"})
+		ds = append(ds, diff{"input", "input buffer unchanged", "Parse wrote to the caller's buffer: " + r.Touched})
 	}
 	if mask&CmpExprCnt != 0 && r.ExprCnt != m.ExprCnt {
 		ds = append(ds, diff{"exprcnt", m.ExprCnt, r.ExprCnt})
